@@ -3,7 +3,7 @@
    Machine W ("window"): threads calling sigtools.signature(w) / inspect.signature(w)
    on ONE shared function object w whose attributes __wrapped__ / __signature__
    are temporarily deleted by cleanup_functools_wrapper
-   (sigtools/_autoforwards.py:430-455, autoforwards_function :458-466,
+   (sigtools/_autoforwards.py:434-469, autoforwards_function :476-501,
    forged_signature sigtools/_specifiers.py:26-119).
 
    One transition = one source line of a modelled function (a 'line' trace
@@ -14,8 +14,8 @@
    (harness/props/c17.py) parks real threads at exactly these events.
 
    Trace codes: fid*100 + (line - line of the def), fid: 1 forged_signature
-   (def at :26), 2 autoforwards_function (:458), 3 cleanup.__init__ (:433),
-   4 cleanup.__enter__ (:436), 5 cleanup.__exit__ (:453), 6 _AsForged.__get__
+   (def at :26), 2 autoforwards_function (:476), 3 cleanup.__init__ (:437),
+   4 cleanup.__enter__ (:440), 5 cleanup.__exit__ (:467), 6 _AsForged.__get__
    (specifiers.py:63), 7 OverrideableDataDesc.__get__ (_util.py:83).
 
    No proofs in this file. *)
@@ -86,44 +86,51 @@ Inductive kind :=
 Inductive pc :=
 | PStart                       (* parked before the call *)
 | PSeg (l : list N) (k : pc)   (* straight-line lines that touch no shared state; head = next line; then k *)
-| E444 (oa : option attr)      (* :444  for attr in self.attrs:        (oa = next attr, None = exhausted) *)
-| E445 (a : attr)              (* :445  try:                                            *)
-| E446 (a : attr)              (* :446  value = getattr(self.func, attr)                *)
-| E447 (a : attr)              (* :447  delattr(self.func, attr)                        *)
-| E448 (a : attr)              (* :448  except AttributeError:                          *)
-| E449 (a : attr)              (* :449  pass                                            *)
-| E451 (a : attr)              (* :451  self.saved_attrs[attr] = value                  *)
-| A460                         (* :460  sig = _signatures.signature(func)   (atomic read) *)
-| A459x                        (* :459  the with line again: calls __exit__             *)
-| X454 (oa : option attr)      (* :454  for attr, val in self.saved_attrs.items():  (search from oa) *)
-| X455 (a : attr)              (* :455  setattr(self.func, attr, val)                   *)
-| A461                         (* :461  if not any_params_star(sig):                    *)
-| A466                         (* :466  return autoforwards_ast(func, func_ast, sig, args, kwargs) *)
+(* constructor names keep the line numbers of the first modelled revision; the
+   current absolute lines are in the comments *)
+| E444 (oa : option attr)      (* :449  for attr in self.attrs:        (oa = next attr, None = exhausted) *)
+| E445 (a : attr)              (* :450  try:                                            *)
+| E445b (a : attr)             (* :451  try:                                            *)
+| E446 (a : attr)              (* :454  value = vars(self.func)[attr]     (first read)  *)
+| E446k (a : attr)             (* :455  except (TypeError, KeyError):                   *)
+| E446g (a : attr)             (* :456  value = getattr(self.func, attr)  (second read) *)
+| E447 (a : attr)              (* :457  delattr(self.func, attr)                        *)
+| E448 (a : attr)              (* :458  except AttributeError:                          *)
+| E449 (a : attr)              (* :459  pass                                            *)
+| E451 (a : attr)              (* :461  self.saved_attrs[attr] = value                  *)
+| A473                         (* :478  try:      (inside the with block, attributes set aside) *)
+| A460                         (* :479  sig = _signatures.signature(func)   (atomic read) *)
+| A459x                        (* :477  the with line again: calls __exit__             *)
+| X454 (oa : option attr)      (* :468  for attr, val in self.saved_attrs.items():  (search from oa) *)
+| X455 (a : attr)              (* :469  setattr(self.func, attr, val)                   *)
+| A461                         (* :484  if not any_params_star(sig):                    *)
+| A466                         (* :499  return autoforwards_ast(func, func_ast, sig, args, kwargs) *)
 | F119                         (* _specifiers.py:119  return upgrade(_signatures.signature(obj))  (atomic read) *)
 | PDone.
 
 (* straight-line segments (trace codes; absolute lines in comments) *)
-(* forged_signature :89 :90 :91 :95 :96 :97 :98 :99 :111 :112 :113, autoforwards_function :459,
-   __init__ :434, __enter__ :437 :438 :439 :440 :443 *)
+(* forged_signature :89 :90 :91 :95 :96 :97 :98 :99 :111 :112 :113, autoforwards_function :472,
+   __init__ :438, __enter__ :441 :442 :443 :444 :447 :448 (try: around the loop) *)
 Definition seg_pre : list N :=
-  [163; 164; 165; 169; 170; 171; 172; 173; 185; 186; 187; 201; 301; 401; 402; 403; 404; 407].
-(* :462 raise UnknownForwards ; forged_signature :115 except, :116 pass *)
-Definition seg_unknown : list N := [204; 189; 190].
-(* :463 func_ast = get_ast(func) ; :464 if func_ast is None *)
-Definition seg_ast : list N := [205; 206].
-(* forged_signature :112 (the multi-line call expression resumes) ; :118 return *)
-Definition seg_ret : list N := [186; 192].
+  [163; 164; 165; 169; 170; 171; 172; 173; 185; 186; 187; 201; 301; 401; 402; 403; 404; 407; 408].
+(* :480 raise UnknownForwards ; forged_signature :115 except, :116 pass *)
+Definition seg_unknown : list N := [209; 189; 190].
+(* :481 func_ast = get_ast(func) ; :482 if func_ast is None ; the per-thread
+   self-forwarding guard :486 :487 :488 :489 :487 :490 :492 :493 (threading.local stack) *)
+Definition seg_ast : list N := [210; 211; 215; 216; 217; 218; 216; 219; 221; 222].
+(* :496 finally: stack.pop() ; forged_signature :112 (the multi-line call expression resumes) ; :118 return *)
+Definition seg_ret : list N := [225; 186; 192].
 
 Fixpoint code_of_pc (p : pc) : N :=
   match p with
   | PStart => 0
   | PSeg (c :: _) _ => c
   | PSeg [] k => code_of_pc k
-  | E444 _ => 408 | E445 _ => 409 | E446 _ => 410 | E447 _ => 411
-  | E448 _ => 412 | E449 _ => 413 | E451 _ => 415
-  | A460 => 202 | A459x => 201
+  | E444 _ => 409 | E445 _ => 410 | E445b _ => 411 | E446 _ => 414 | E446k _ => 415
+  | E446g _ => 416 | E447 _ => 417 | E448 _ => 418 | E449 _ => 419 | E451 _ => 421
+  | A473 => 202 | A460 => 203 | A459x => 201
   | X454 _ => 501 | X455 _ => 502
-  | A461 => 203 | A466 => 208 | F119 => 193
+  | A461 => 208 | A466 => 223 | F119 => 193
   | PDone => 0
   end.
 
@@ -165,10 +172,18 @@ Definition exec (c : cfg) (s : store) (th : thread) : option (store * thread) :=
       | KSig => Some (s, upd (seg seg_pre (E444 (Some AW))))
       end
   | PSeg l k => Some (s, upd (seg (tl l) k))
-  | E444 None => Some (s, upd A460)                 (* loop exhausted: __enter__ returns, next line is :460 *)
+  | E444 None => Some (s, upd A473)                 (* loop exhausted: __enter__ returns, next line is :473 *)
+  | A473 => Some (s, upd A460)
   | E444 (Some a) => Some (s, upd (E445 a))
-  | E445 a => Some (s, upd (E446 a))
+  | E445 a => Some (s, upd (E445b a))
+  | E445b a => Some (s, upd (E446 a))
   | E446 a =>
+      match sget s a with
+      | Some v => Some (s, mkThread (th_kind th) (E447 a) (th_saved th) (Some v) (th_sigv th) (th_ans th) (th_trace th))
+      | None => Some (s, upd (E446k a))             (* KeyError: not in the function's __dict__ *)
+      end
+  | E446k a => Some (s, upd (E446g a))
+  | E446g a =>
       match sget s a with
       | Some v => Some (s, mkThread (th_kind th) (E447 a) (th_saved th) (Some v) (th_sigv th) (th_ans th) (th_trace th))
       | None => Some (s, upd (E448 a))              (* AttributeError *)
@@ -288,8 +303,8 @@ Definition store_eqb (x y : store) : bool :=
 (* between the first iteration of __enter__'s loop and the end of __exit__'s loop *)
 Definition in_window (p : pc) : bool :=
   match p with
-  | E444 _ | E445 _ | E446 _ | E447 _ | E448 _ | E449 _ | E451 _
-  | A460 | A459x | X454 _ | X455 _ => true
+  | E444 _ | E445 _ | E445b _ | E446 _ | E446k _ | E446g _ | E447 _ | E448 _ | E449 _ | E451 _
+  | A473 | A460 | A459x | X454 _ | X455 _ => true
   | _ => false
   end.
 
